@@ -18,6 +18,13 @@ Theorem decl_templates_match_reviewed :
   gen_py_decl_base = walker_py_decl_base.
 Proof. repeat split; reflexivity. Qed.
 
+(* the file-level wrappers: include guards, the includes a header needs when it is generated WITHOUT serialization support
+   (`nunavut.support.omit`: <assert.h>/<stdbool.h>/<stdint.h> for C, the pod includes for C++), option static_asserts only when the
+   support header is emitted, the `#pragma GCC diagnostic` push/pop around the body of a deprecated C++ type *)
+Theorem decl_base_templates_match_reviewed :
+  gen_c_decl_base = walker_c_decl_base /\ gen_cpp_decl_base = walker_cpp_decl_base.
+Proof. split; reflexivity. Qed.
+
 Definition has_sub (needle hay : string) : bool := match index 0 needle hay with Some _ => true | None => false end.
 Definition lines (rho : string -> bool) (l : list tnode) : list string := map snd (flatten_all rho l).
 Definition emits_line (needle : string) (ls : list string) : bool := existsb (has_sub needle) ls.
